@@ -1,14 +1,14 @@
 SPECIFICATION Spec
 CONSTANTS
-  MaxFails = 0
+  MaxFails = 3
   Members = {"m1", "m2", "m3"}
   Ids = {"m1", "m2", "m3", "zz", ""}
   AsCoded = FALSE
   GenCanon = FALSE
   Fams <- ExhFams
-  MaxSel = 2
+  MaxSel = 1
   MaxWrites = 1
-  MaxReads = 3
+  MaxReads = 2
   MaxProbe = 1
   MaxRac = 1
 VIEW StView
